@@ -26,6 +26,18 @@ Definition write_file (del : list nat) (items : list item) : list str := write_f
 Definition cPlusChar : ascii := "+"%char.
 Definition include_name (l : str) : option str := match l with c :: name => if Ascii.eqb c cPlusChar then Some name else None | [] => None end.
 
+(* _read_included_file (as repaired by 93016d2): an END instruction ends the include file - the line itself and everything behind it
+   is not part of the model.  included_line[:4].upper().rstrip() == 'END' *)
+Definition is_py_space (c : ascii) : bool := let n := nat_of_ascii c in Nat.eqb n 32 || ((9 <=? n)%nat && (n <=? 13)%nat) || ((28 <=? n)%nat && (n <=? 31)%nat).
+Definition is_end_line (l : str) : bool :=
+  match upper (firstn 4 l) with
+  | [e; n; d] => Ascii.eqb e "E"%char && Ascii.eqb n "N"%char && Ascii.eqb d "D"%char
+  | [e; n; d; c] => Ascii.eqb e "E"%char && Ascii.eqb n "N"%char && Ascii.eqb d "D"%char && is_py_space c
+  | _ => false
+  end.
+Fixpoint until_end (inc : list str) : list str :=
+  match inc with [] => [] | l :: r => if is_end_line l then [] else l :: until_end r end.
+
 Fixpoint expand (fuel : nat) (fs : str -> option (list str)) (lines : list (str * bool)) : list (str * bool) :=
   match fuel with
   | O => lines
@@ -35,7 +47,7 @@ Fixpoint expand (fuel : nat) (fs : str -> option (list str)) (lines : list (str 
     | (l, m) :: r =>
       match include_name l with
       | Some name => match fs name with
-                     | Some inc => (l, m) :: expand f fs (map (fun x => (x, true)) inc ++ r)
+                     | Some inc => (l, m) :: expand f fs (map (fun x => (x, true)) (until_end inc) ++ r)
                      | None => (l, m) :: expand f fs r
                      end
       | None => (l, m) :: expand f fs r
